@@ -327,11 +327,11 @@ package smf
 //  - the running tick and time are those of entry k; an entry at the tick of its predecessor gets the predecessor's time;
 //  - the first entry, when it is not at tick 0, gets the duration of its ticks at 120 BPM (the stretch before the
 //    first tempo change), in whole microseconds;
-//  - in a map whose entries up to k-1 are at ticks before entry k (tcLast: entry k-1 is the change in force just
-//    before entry k - true of every k in a map sorted by tick), entry k gets the time of entry k-1 plus the duration
-//    of the ticks in between at the tempo of entry k-1 (NOT the tempo of entry k), in whole microseconds.
-// Not stated: the closed form 'time of entry k = sum over all earlier segments' (a fold; it follows by induction
-// from the third clause outside the machinery) and maps that are not sorted.
+//  - the second entry, when it is at a later tick than the first, gets the time of the first plus the duration of the
+//    ticks in between at the tempo of the FIRST entry (not its own), in whole microseconds.
+// The same recurrence for every entry k of a map sorted up to k (hypothesis tcLast(map, k-1, tick_k - 1)) discharges
+// on the code as it is (4 s) but times out when the two lookups of the loop body are merely swapped (must-pass
+// corpus, benign/g9-6): too unstable to claim, so only k = 1 is stated. Not stated either: the closed form (a fold).
 //@ macro usIs(us, ns) = real(int(us)) * 1000.0 <= ns && ns < real(int(us)) * 1000.0 + 1000.0
 //@ macro tfQ(s) = (uint16(bval(s.TimeFormat)) == 0 ? 960 : uint16(bval(s.TimeFormat)))
 //@ macro tcPrevDur(s, k) = durOf(tfQ(s), s.tempoChanges[k-1].BPM, uint32(s.tempoChanges[k].AbsTicks - s.tempoChanges[k-1].AbsTicks))
@@ -342,7 +342,7 @@ package smf
 //@ loop 0 invariant (rangeindex == -1 ==> (lasttcTick == 0 && lasttcTimeMicroSec == 0)) && (rangeindex >= 0 ==> (lasttcTick == s.tempoChanges[rangeindex].AbsTicks && lasttcTimeMicroSec == s.tempoChanges[rangeindex].AbsTimeMicroSec))
 //@ loop 0 invariant [P:C11] (rangeindex >= 1 && s.tempoChanges[rangeindex].AbsTicks == s.tempoChanges[rangeindex-1].AbsTicks) ==> s.tempoChanges[rangeindex].AbsTimeMicroSec == s.tempoChanges[rangeindex-1].AbsTimeMicroSec
 //@ loop 0 invariant [P:C11] (rangeindex == 0 && typeof(s.TimeFormat) == typeid(MetricTicks) && s.tempoChanges[0].AbsTicks > 0 && s.tempoChanges[0].AbsTicks < 4294967296 && durOf(tfQ(s), 120.0, uint32(s.tempoChanges[0].AbsTicks)) >= 0.0 && durOf(tfQ(s), 120.0, uint32(s.tempoChanges[0].AbsTicks)) < 9223372036854775808.0) ==> usIs(s.tempoChanges[0].AbsTimeMicroSec, durOf(tfQ(s), 120.0, uint32(s.tempoChanges[0].AbsTicks)))
-//@ loop 0 invariant [P:C11] (rangeindex >= 1 && typeof(s.TimeFormat) == typeid(MetricTicks) && tcLast(s.tempoChanges, rangeindex - 1, s.tempoChanges[rangeindex].AbsTicks - 1) && s.tempoChanges[rangeindex-1].AbsTicks >= 0 && s.tempoChanges[rangeindex].AbsTicks < 4294967296 && tcPrevDur(s, rangeindex) >= 0.0 && tcPrevDur(s, rangeindex) < 9223372036854775808.0) ==> usIs(s.tempoChanges[rangeindex].AbsTimeMicroSec - s.tempoChanges[rangeindex-1].AbsTimeMicroSec, tcPrevDur(s, rangeindex))
+//@ loop 0 invariant [P:C11] (rangeindex == 1 && typeof(s.TimeFormat) == typeid(MetricTicks) && s.tempoChanges[0].AbsTicks >= 0 && s.tempoChanges[0].AbsTicks < s.tempoChanges[1].AbsTicks && s.tempoChanges[1].AbsTicks < 4294967296 && tcPrevDur(s, 1) >= 0.0 && tcPrevDur(s, 1) < 9223372036854775808.0) ==> usIs(s.tempoChanges[1].AbsTimeMicroSec - s.tempoChanges[0].AbsTimeMicroSec, tcPrevDur(s, 1))
 //@ loop 0 decreases len(s.tempoChanges) - rangeindex
 
 //@ func (*SMF).finishTempoChanges
